@@ -673,3 +673,90 @@ Lemma rebind_witness :
   commit_ids rs = [0; 1]%Z /\
   commit_ids (snd (run Rebind init (keep_done witness_19 rs))) = [0; 1]%Z.
 Proof. vm_compute. repeat split; reflexivity. Qed.
+(* ---------------------------------------------------------------------------------------- *)
+(* the old restore (mode Alias) on the complement of the defect's class                     *)
+(* ---------------------------------------------------------------------------------------- *)
+
+Fixpoint no_handles (v : value) : bool :=
+  match v with
+  | GPair a b => no_handles a && no_handles b
+  | GSome a => no_handles a
+  | GBig _ _ _ => false
+  | _ => true
+  end.
+
+Definition stack_clean (s : session) : bool := forallb no_handles (s_stack s).
+
+(* decidable on the cell sequence (by running it): whenever a cell fails, no big_map is on the stack *)
+Fixpoint alias_safe (s : session) (cells : list cell) : bool :=
+  match cells with
+  | [] => true
+  | c :: r =>
+      (is_done (snd (exec_cell Alias s c)) || stack_clean s) && alias_safe (fst (exec_cell Alias s c)) r
+  end.
+
+Lemma gmap_no_handles (f : handle -> handle) v : no_handles v = true -> gmap f v = v.
+Proof.
+  induction v as [|z|z|str|z|a IHa b IHb|t0|a IHa|t0|k t h]; simpl; intro H; try reflexivity.
+  - apply andb_true_iff in H. destruct H as [Ha Hb]. rewrite IHa, IHb; auto.
+  - rewrite IHa; auto.
+  - discriminate.
+Qed.
+
+Lemma restore_clean s sf : stack_clean s = true -> restore Alias s sf = restore Rebind s sf.
+Proof.
+  unfold stack_clean, restore. intro H. f_equal.
+  induction (s_stack s) as [|a r IH]; simpl in *; [reflexivity|].
+  apply andb_true_iff in H. destruct H as [Ha Hr].
+  rewrite (gmap_no_handles _ a Ha), <- IH; auto.
+Qed.
+
+Lemma exec_cell_clean s c : stack_clean s = true -> exec_cell Alias s c = exec_cell Rebind s c.
+Proof.
+  intro H. destruct c as [| |l]; simpl; try reflexivity.
+  - rewrite restore_clean; auto.
+  - destruct (forallb instr_valid l); [|rewrite restore_clean; auto].
+    destruct (irun l s []) as [[s1 o]|sf]; [reflexivity|]. rewrite restore_clean; auto.
+Qed.
+
+Lemma exec_cell_done_mode m m' s c :
+  is_done (snd (exec_cell m s c)) = true -> exec_cell m' s c = exec_cell m s c.
+Proof.
+  destruct c as [| |l]; simpl; try discriminate.
+  destruct (forallb instr_valid l); [|discriminate].
+  destruct (irun l s []) as [[s1 o]|sf]; [reflexivity|discriminate].
+Qed.
+
+Lemma run_alias_safe cells : forall s, alias_safe s cells = true -> run Alias s cells = run Rebind s cells.
+Proof.
+  induction cells as [|c r IH]; intros s H; [reflexivity|].
+  simpl in H. apply andb_true_iff in H. destruct H as [H1 H2].
+  assert (E : exec_cell Alias s c = exec_cell Rebind s c).
+  { apply orb_true_iff in H1. destruct H1 as [D|C].
+    - symmetry. apply exec_cell_done_mode, D.
+    - apply exec_cell_clean, C. }
+  rewrite !run_cons, <- E, (IH _ H2). reflexivity.
+Qed.
+
+Lemma run_all_done cells : forall s,
+  forallb is_done (snd (run Rebind s cells)) = true -> run Alias s cells = run Rebind s cells.
+Proof.
+  induction cells as [|c r IH]; intros s H; [reflexivity|].
+  rewrite run_cons in H. simpl in H. apply andb_true_iff in H. destruct H as [H1 H2].
+  rewrite !run_cons, (exec_cell_done_mode Rebind Alias s c H1), (IH _ H2). reflexivity.
+Qed.
+
+Lemma alias_partial cells :
+  alias_safe init cells = true ->
+  let rs := snd (run Alias init cells) in
+  snd (run Alias init (keep_done cells rs)) = filter is_done rs /\
+  view (fst (run Alias init (keep_done cells rs))) = view (fst (run Alias init cells)).
+Proof.
+  intro H. cbv zeta. rewrite (run_alias_safe cells init H).
+  destruct (run_noop cells init init swf_init swf_init eq_refl) as [E1 E2]. cbv zeta in E1, E2.
+  rewrite run_all_done; [auto|]. rewrite E1. apply filter_done_all.
+Qed.
+
+(* the class is not empty and does not contain the witness *)
+Lemma alias_safe_witness : alias_safe init witness_19 = false.
+Proof. vm_compute. reflexivity. Qed.
